@@ -24,8 +24,26 @@ MCRoots  == IF Universe = 1 THEN {2} ELSE {2, 3, -2}
 MCMaxE   == IF Universe = 1 THEN 3 ELSE 4
 MCMaxP   == IF Universe = 1 THEN 6 ELSE 12
 \* operation sets per configuration
+Seeded == EnvInt("VERIF_SEEDS", 0)
+S2(x, e1, y, e2, p) == U(p, [b \in MCBase |-> IF b = x THEN e1 ELSE IF b = y THEN e2 ELSE 0])
+\* seeds: a square, a prefixed square, a dimensionless ratio and its square, a mixed quotient, an inverse
+MCSeeds == IF Seeded = 0 THEN {} ELSE
+   {S2("b1", 2, "b2", 0, 0), S2("b1", 2, "b2", 0, 3), S2("b1", 1, "b2", -1, 0), S2("b1", 2, "b2", -2, 0),
+    S2("b3", 1, "b1", -1, 0), S2("b3", -1, "b1", 0, 0), S2("b1", 1, "b2", 0, 3)}
+\* foreign units (serialised by another process): a few shapes (quick) or every small one/two-factor unit
+MCQKinds == IF EnvInt("VERIF_KINDS", 4) = 2 THEN {0, 1} ELSE {0, 1, 2, 3}
+MCForeignShapes ==
+   IF EnvInt("VERIF_FOREIGN", 1) = 1
+   THEN {S2("b1", 1, "b2", -1, 0), S2("b1", 1, "b3", -1, 0), S2("b3", 2, "b1", 0, 0), S2("b1", 2, "b2", 0, 3),
+         S2("b2", -1, "b1", 0, 0), S2("b1", 1, "b2", 1, 0), S2("b3", 1, "b1", -1, 3), S2("b1", 2, "b2", -2, 0)}
+   ELSE {S2(x, e1, y, e2, p) : x \in MCBase, y \in MCBase, e1 \in {-2, -1, 1, 2}, e2 \in {-1, 0, 1}, p \in {0, 3}}
+MCForeign == IF EnvSet("VERIF_OPS") \notin {"foreign", "foreignq"} THEN {}
+   ELSE MCSeeds \cup {U(0, [c \in MCBase |-> IF c = b THEN 1 ELSE 0]) : b \in MCBase} \cup MCForeignShapes
 MCOps == LET s == EnvSet("VERIF_OPS") IN
-         IF s = "codec" THEN {"mul", "div", "pmul", "dump", "load"}
+         IF s = "codec" THEN {"pmul", "dump", "load"}
+         ELSE IF s = "foreign" THEN {"loadf", "mul", "div"}
+         ELSE IF s = "foreignq" THEN {"loadf"}
+         ELSE IF s = "roots" THEN {"div", "pow", "root"}
          ELSE IF s = "touch" THEN {"mul", "div", "pow", "root", "as_ratio", "render", "touch"}
          ELSE {"mul", "div", "pow", "root", "pmul", "as_ratio", "quantify", "render"}
 MCShipped == LET s == EnvSet("VERIF_SHIPPED") IN
@@ -35,6 +53,7 @@ MCShipped == LET s == EnvSet("VERIF_SHIPPED") IN
 MCNext == TLCGet("level") <= Depth /\ Next
 View == <<known, dimOf, pickled>>
 Abs == [k |-> {[u |-> u, d |-> dimOf[u]] : u \in known}, pk |-> pickled]
+ExportSeeds == (ev.op = "init") => PrintT("@@SEEDS " \o ToJson([seeds |-> MCSeeds, foreign |-> MCForeign]))
 Export == PrintT("@@T " \o ToJson([from |-> Abs, ev |-> ev', to |-> Abs']))
 \* simulation mode: one line per chosen state (invariants are evaluated on the chosen successor only)
 ExportStep == PrintT("@@S " \o ToJson([ev |-> ev]))
